@@ -6,3 +6,4 @@ CONSTANTS
   MaxOps = 2
   Big = TRUE
   CheckImpl = TRUE
+  NonAscii = FALSE
